@@ -547,6 +547,8 @@ func BatchFunc[T any](
 				if len(batch) > 0 {
 					// Time already elapsed, just deliver the batch now.
 					if time.Since(batchStart) > maxWait {
+						// The timer may still be armed for this batch; its tick must not flush the next one.
+						stopTimer()
 						if !flush() {
 							return
 						}
